@@ -57,3 +57,22 @@ pub fn dump(repo: &std::path::Path, args: &[String]) {
         }
     }
 }
+
+pub fn dump_impl(repo: &std::path::Path) {
+    use crate::misc::*;
+    let ix = crate::index::Index::load(&repo.join("derive-ex").join("src")).expect("load");
+    let f = find_fn(&ix, &|f| sig_text(f).contains("&ItemImpl") && sig_text(f).contains("->Result<TokenStream>")).expect("impl builder");
+    let mut ev = mk_ev(&ix);
+    let cg = crate::roles::CallGraph::build(&ix);
+    for c in cg.edges.get(&f.qual).cloned().unwrap_or_default() {
+        if let Some(g) = ix.get_fn(&c) { let s = sig_text(&g); if s.contains("->Result<") && c != f.qual { ev.stops.push((c.clone(), "ret")); println!("stop {c}"); } }
+    }
+    let mut st = St::new();
+    for s in std::env::var("SEED").unwrap_or_default().split(',') { if !s.is_empty() { let (n, v) = if let Some(x) = s.strip_prefix('!') { (x, false) } else { (s, true) }; st.cond.insert(n.to_string(), v); } }
+    let outs = ev.call_fn(st, &f, None, vec![Val::Sym { ty: Ty::Named("TokenStream".into(), vec![]), path: "attr".into() }, Val::Sym { ty: Ty::Named("ItemImpl".into(), vec![]), path: "item_impl".into() }]);
+    println!("paths={} unsup={:?}", outs.len(), ev.unsupported.borrow());
+    for (st, fl) in outs.iter().take(std::env::var("N").ok().and_then(|x| x.parse().ok()).unwrap_or(6)) {
+        println!("--- [{}]", cond_str(&st.cond));
+        match fl { Flow::Val(v) | Flow::Ret(v) => { let mut ctx = crate::render::Ctx::new(2); println!("  {}", v.short().chars().take(300).collect::<String>()); if let Val::Enum { var, args, .. } = v { if var == "Ok" { println!("  => {}", crate::render::render(&args[0], &mut ctx)); println!("  notes {:?}", ctx.notes); } } } _ => println!("  other flow") }
+    }
+}
